@@ -356,6 +356,45 @@ RUNNERS["recompute"] = recompute.runner("C16")
 RUNNERS["derived"] = run_derived
 
 
+def run_nested(chk, spec):
+	"""a vector whose elements are vectors of unequal length (not a table): a write into an inner vector is a write to the outer one's contents"""
+	import random
+	import warnings
+	rng = random.Random(spec["seed"])
+	inner = [[rng.choice([1, 2, 3, 5]) for _ in range(k)] for k in spec["lens"]]
+	with warnings.catch_warnings():
+		warnings.simplefilter("ignore")
+		o = call(lambda: Vector([Vector(list(x)) for x in inner]))
+	if not o.ok or isinstance(o.value, Table) or not all(isinstance(e, Vector) for e in o.value._underlying):
+		chk.skip("nested-not-a-vector-of-vectors")
+		return
+	outer = o.value
+	f0 = fp(outer).value if spec["cached"] else None
+	i = rng.randrange(len(inner))
+	j = rng.randrange(len(inner[i]))
+	old = inner[i][j]
+	new = old + 10
+	how = spec["how"]
+	if how == "through-outer":
+		w = call(lambda: outer[i].__setitem__(j, new))
+	elif how == "held-inner":
+		held = outer._underlying[i]
+		w = call(held.__setitem__, j, new)
+	else:
+		w = call(lambda: outer[i].__setitem__(slice(j, j + 1), [new]))
+	chk.judged("write-path", ("nested", how, spec["cached"], tuple(spec["lens"])))
+	if not w.ok:
+		chk.skip("write-refused")
+		return
+	if not judge_fresh(chk, outer, f"nested-vector/{'cached-before' if spec['cached'] else 'not-cached-before'}/{how}", spec):
+		return
+	if spec["cached"] and fp(outer).value == f0:
+		chk.fail("a write that changes an element to an unequal value changes the fingerprint", f"fingerprint/insensitive/nested-vector/{how}", f"{spec!r}: inner element {old} -> {new}, fingerprint stayed {f0}")
+
+
+RUNNERS["nested"] = run_nested
+
+
 def setup(chk):
 	pool.CENSUS.install()
 
@@ -383,6 +422,10 @@ def run(chk):
 						continue
 					for _ in range(reps):
 						chk.case("table_path", {"path": path, "cached": cached, "view_first": view_first, "kinds": kinds, "n": rng.choice([1, 2, 3, 4]), "seed": rng.randrange(10**9)}, "table-path")
+	for lens in ([2, 1], [1, 2], [3, 1, 2], [1, 1, 2]):
+		for how in ("through-outer", "held-inner", "inner-slice"):
+			for cached in (True, False):
+				chk.case("nested", {"lens": lens, "how": how, "cached": cached, "seed": rng.randrange(10**9)}, "nested")
 	for kind in DOM:
 		for deriv in DERIVS:
 			for cached in (True, False):
